@@ -38,26 +38,13 @@ theorem integerLoop_suffix (P : Profile) :
         revert this; cases integerLoop P r (cur * 10 + Str.digitVal c) true <;>
           simp [PR.RestSuffix] <;> exact suffix_of_cons
       · split
-        · simp [PR.RestSuffix]
-        · have := integerLoop_suffix P r ((cur * 10 + Str.digitVal c) % 2 ^ P.wordBits) true
-          revert this; cases integerLoop P r ((cur * 10 + Str.digitVal c) % 2 ^ P.wordBits) true <;>
-            simp [PR.RestSuffix] <;> exact suffix_of_cons
+        · simp only [PR.RestSuffix]; exact suffix_of_cons (List.dropWhile_suffix _)
+        · split
+          · simp [PR.RestSuffix]
+          · have := integerLoop_suffix P r ((cur * 10 + Str.digitVal c) % 2 ^ P.wordBits) true
+            revert this; cases integerLoop P r ((cur * 10 + Str.digitVal c) % 2 ^ P.wordBits) true <;>
+              simp [PR.RestSuffix] <;> exact suffix_of_cons
     · simp [PR.RestSuffix]
-
-theorem integerLoop_ne_fail (P : Profile) :
-    ∀ (s : List Char) (cur : Nat) (found : Bool) e r, integerLoop P s cur found ≠ .fail e r
-  | [], _, _ => by simp [integerLoop]
-  | c :: t, cur, found => by
-    intro e r
-    unfold integerLoop
-    split
-    · simp only []
-      split
-      · exact integerLoop_ne_fail P t _ _ e r
-      · split
-        · simp
-        · exact integerLoop_ne_fail P t _ _ e r
-    · simp
 
 theorem integerLoop_ne_fuel (P : Profile) :
     ∀ (s : List Char) (cur : Nat) (found : Bool), integerLoop P s cur found ≠ .fuel
@@ -70,7 +57,9 @@ theorem integerLoop_ne_fuel (P : Profile) :
       · exact integerLoop_ne_fuel P t _ _
       · split
         · simp
-        · exact integerLoop_ne_fuel P t _ _
+        · split
+          · simp
+          · exact integerLoop_ne_fuel P t _ _
     · simp
 
 theorem fillLookahead_suffix (s : List Char) : (fillLookahead s).2 <:+ s := by
@@ -136,23 +125,6 @@ theorem parameters_suffix (P : Profile) (s : List Char) : (parameters P s).RestS
       | panic w => intro _; simp [PR.RestSuffix]
       | fuel => intro _; simp [PR.RestSuffix]
     · simp [PR.RestSuffix]
-
-theorem parameters_ne_fail (P : Profile) (s : List Char) e r : parameters P s ≠ .fail e r := by
-  unfold parameters
-  split
-  · simp
-  · split
-    · simp only [integer]
-      split
-      · split
-        · split
-          · split <;> simp_all [integerLoop_ne_fail]
-          · simp
-        · simp
-      · rename_i h; exact absurd h (integerLoop_ne_fail P _ _ _ _ _)
-      · simp
-      · simp
-    · simp
 
 theorem parameters_ne_fuel (P : Profile) (s : List Char) : parameters P s ≠ .fuel := by
   unfold parameters
@@ -224,7 +196,12 @@ theorem argumentWith_shape (cc : CharClass) (P : Profile) (argsF : List Char →
       obtain ⟨q, r4, hq, hs⟩ := closeBrace_spec (.arg (name cc r).1 args p) r3
       rw [hq]
       exact List.IsSuffix.trans hs (List.IsSuffix.trans hp (List.IsSuffix.trans hA hn))
-    · rename_i e r3 hpar; exact absurd hpar (parameters_ne_fail P r2 e r3)
+    · rename_i e r3 hpar
+      rw [hpar] at hp
+      simp only [PR.RestSuffix] at hp
+      obtain ⟨q, r4, hq, hs⟩ := closeBrace_spec (.error e) r3
+      rw [hq]
+      exact List.IsSuffix.trans hs (List.IsSuffix.trans hp (List.IsSuffix.trans hA hn))
     · simp [PR.ArgShape]
     · simp [PR.ArgShape]
   · rename_i e r2 hargs
@@ -384,7 +361,9 @@ theorem argumentWith_ne_fuel (cc : CharClass) (P : Profile) (F : List Char → P
     · rename_i p r3 _
       obtain ⟨q, r4, hq, _⟩ := closeBrace_spec (.arg (name cc r).1 args p) r3
       rw [hq]; simp
-    · simp
+    · rename_i e r3 _
+      obtain ⟨q, r4, hq, _⟩ := closeBrace_spec (.error e) r3
+      rw [hq]; simp
     · simp
     · rename_i hpar; exact absurd hpar (parameters_ne_fuel P r2)
   · rename_i e r2 _
@@ -636,7 +615,9 @@ theorem argumentWith_ne_panic (cc : CharClass) (P : Profile) (F : List Char → 
     · rename_i p r3 _
       obtain ⟨q, r4, hq, _⟩ := closeBrace_spec (.arg (name cc r).1 args p) r3
       rw [hq]; simp
-    · simp
+    · rename_i e r3 _
+      obtain ⟨q, r4, hq, _⟩ := closeBrace_spec (.error e) r3
+      rw [hq]; simp
     · rename_i w' hpar
       exact absurd hpar (parameters_ne_panic P r2 (hs.suffix (hA.trans (name_suffix cc r))) w')
     · simp
@@ -759,9 +740,27 @@ theorem integerLoop_ne_panic_of_wrapping (P : Profile) (hP : P.overflowChecks = 
       split
       · exact integerLoop_ne_panic_of_wrapping P hP t _ _ w
       · split
-        · rename_i h; rw [hP] at h; cases h
-        · exact integerLoop_ne_panic_of_wrapping P hP t _ _ w
+        · simp
+        · split
+          · rename_i h; rw [hP] at h; cases h
+          · exact integerLoop_ne_panic_of_wrapping P hP t _ _ w
     · simp
+
+/-- with the proposed repair of F3 (`Profile.widthCheck`) `integer` never panics either -/
+theorem integerLoop_ne_panic_of_widthCheck (P : Profile) (hP : P.widthCheck = true) :
+    ∀ (s : List Char) (cur : Nat) (found : Bool) (w : String), integerLoop P s cur found ≠ .panic w
+  | [], _, _, _ => by simp [integerLoop]
+  | c :: t, cur, found, w => by
+    unfold integerLoop
+    split
+    · simp only []
+      split
+      · exact integerLoop_ne_panic_of_widthCheck P hP t _ _ w
+      · simp
+    · simp
+
+theorem intSafe_of_widthCheck (P : Profile) (hP : P.widthCheck = true) (s : List Char) : IntSafe P s :=
+  fun t _ w => integerLoop_ne_panic_of_widthCheck P hP t 0 false w
 
 theorem intSafe_of_wrapping (P : Profile) (hP : P.overflowChecks = false) (s : List Char) : IntSafe P s :=
   fun t _ w => integerLoop_ne_panic_of_wrapping P hP t 0 false w
